@@ -329,9 +329,13 @@ SubRowsFrom(rows, i, want, j) ==   \* is want[j..] a subsequence of rows[i..] ?
     ELSE SubRowsFrom(rows, i + 1, want, j)
 LogLinesOf(items) == LET ls == SelectSeq(items, LAMBDA it : it.k = "log") IN [j \in 1..Len(ls) |-> ls[j].l]
 Count(rows, x) == Cardinality({i \in 1..Len(rows) : rows[i] = x})
+(* rows that a bar's rendering (requested or painted last) occupies: a log row that looks like one of them cannot be counted *)
+RowSet(lines, w) == LET r == Layout(lines, w).rows IN {r[k] : k \in 1..Len(r)}
+BarRowSet(S) == UNION { RowSet(S.bars[b].pend, S.w) \cup RowSet(S.bars[b].onscr, S.w) : b \in S.ids }
 LogIntact(S, t, above) ==
     LET want == TrimRows(Layout(LogLinesOf(above), S.w).rows)
         rows == AllRows(t)
+        br == BarRowSet(S)
     IN /\ SubRowsFrom(rows, 1, want, 1)
-       /\ \A j \in 1..Len(want) : IsBlank(want[j]) \/ Count(rows, want[j]) = Count(want, want[j])
+       /\ \A j \in 1..Len(want) : IsBlank(want[j]) \/ want[j] \in br \/ Count(rows, want[j]) = Count(want, want[j])
 =============================================================================
